@@ -69,6 +69,24 @@ func acceptedWorkload(c *fw.Ctx, scale int, emit emitFn) {
 			}
 		}
 	}
+	// names that differ only in letter case: path parameters, query parameters, headers, properties, types, tags, enums -
+	// all of them are different names in JSight, in JSON and in OpenAPI (header names excepted, which the property does not mention)
+	for i, d := range []string{
+		"GET /users/{id}/items/{ID}\n  200 any\n",
+		"GET /users/{id}/items/{ID}\n  Path\n    {\"id\": 1, \"ID\": \"x\"}\n  200 any\n",
+		"URL /o/{orderId}/l/{orderid}\n  Path\n    {\n      \"orderId\": 1, // first\n      \"orderid\": 2 // second\n    }\n  GET\n    200 any\n  DELETE\n    204 empty\n",
+		"URL /o/{a}\n  Path\n    {\"a\": 1}\n  GET /o/{a}/p/{A}\n    Path\n      {\"A\": \"s\"}\n    200 any\n",
+		"GET /q\n  Query \"a=1&A=2\"\n    {\"a\": 1, \"A\": 2}\n  200 any\n",
+		"POST /h\n  Request\n    Headers\n      {\"X-A\": \"1\", \"x-a\": \"2\"}\n    Body any\n  200\n    Headers\n      {\"Etag\": \"1\", \"ETag\": \"2\"}\n    Body any\n",
+		"TYPE @cat\n  {\"n\": 1}\nTYPE @Cat\n  {\"N\": \"s\"}\nGET /t\n  200\n    {\"a\": @cat, \"b\": @Cat, \"B\": @cat | @Cat}\n",
+		"TAG @pets\nTAG @Pets\nGET /pets\n  Tags @Pets\n  200 any\nGET /Pets\n  Tags @pets\n  200 any\nGET /PETS\n  200 any\n",
+		"ENUM @e\n  [\"a\"]\nENUM @E\n  [\"A\"]\nGET /e\n  200\n    {\n      \"x\": \"a\", // {enum: @e}\n      \"X\": \"A\" // {enum: @E}\n    }\n",
+		"URL /rpc\n  Protocol json-rpc-2.0\n  Method ping\n    Params\n      {\"p\": 1, \"P\": 2}\n    Result any\n  Method Ping\n    Result any\n",
+		"GET /a/{id}\n  200 any\nGET /A/{id}\n  200 any\nGET /a/{ID}/x\n  200 any\n",
+		"SERVER @s\n  BaseUrl \"https://{env}.{Env}.x.com\"\n    {\"env\": \"a\", \"Env\": \"b\"}\nSERVER @S\n  BaseUrl \"https://y\"\nGET /s\n  200 any\n",
+	} {
+		emit("case-variants", singleJob(fmt.Sprintf("case-%d", i), []byte("JSIGHT 0.3\n"+d), false))
+	}
 	// targeted generator
 	schemas := []string{
 		`{"id": 1}`, `{"id": "a"}`, `{"id": 1 // {min: 5}` + "\n}", `{"id": "abc" // {minLength: 10}` + "\n}", `{"id": @t}`, `{"id": @undefined}`,
@@ -80,14 +98,19 @@ func acceptedWorkload(c *fw.Ctx, scale int, emit emitFn) {
 		`{"id": "2021-01-02" // {type: "date"}` + "\n}", `{"id": "x@y.z" // {type: "email"}` + "\n}", `{"id": "bad" // {type: "email"}` + "\n}",
 		`{"id": 1 // {const: true}` + "\n}", `{"k": 1 // {additionalProperties: "string"}` + "\n}", `{ // {additionalProperties: "@t"}` + "\n}",
 		`{"id": "\xff"}`, `{"id\xc3": 1}`, `{"@t": 1}`, `{@t: 1}`, `{"id": 1 /* note */}`, `{"id": 1 // {min: 1} - the id` + "\n}", `"x" // {regex: "^x$"}`, `"x" // {regex: "("}`,
+		`{"x": {} // {or: [{type: "object"}, {type: "array"}]}` + "\n}", `{"x": [] // {or: [{type: "object"}, {type: "array"}]}` + "\n}", `{"x": {} // {or: ["object", "string"]}` + "\n}", `{"x": 1 // {or: [{type: "object"}, {type: "integer"}]}` + "\n}",
+		`[] // {or: [{type: "array", minItems: 0}, {type: "null"}]}`, `{} // {or: [{type: "object"}, "@t"]}`, `{"x": [1] // {or: [{type: "array"}, {type: "integer"}]}` + "\n}", `{"x": {"y": 1} // {or: [{type: "object"}, {type: "integer"}]}` + "\n}",
 		`{"a":1,"a":2}`, `{"q\"k": 1, "b\\s": "v\"q\\ \n \u00e9 /", "uni\u00e9": -0.5, "": 0, "ключ": [[], {}], "e": {}}`, `{"plain key": "text with \"quotes\" and \\ and é", "n": 12345678901234567890, "z": -0}`, `[1 // {min: 2}` + "\n]", `{"id": 12 // {type: "mixed", or: ["@t", {type: "integer"}]}` + "\n}",
 	}
-	regexes := []string{`/[^\x00-\x{10FFFF}]/`, `/[^\s\S]/`, `/a{0}/`, `/\b\B/`, `/$a/`, `/abc/`, `/[a-z]+/`, `/(/`, `/[a-z]\x95/`, `//`, `/a{2,1}/`, `/\d+/`, `/(?=a)/`, `/a/ `, `/\//`, `/[/`, "/a\nb/", `/(?P<n>a)/`}
+	regexes := []string{`/(xx|[^\x{0}-\x{10FFFF}]q)/`, `/[^\x00-\x{10FFFF}]/`, `/[^\s\S]/`, `/a{0}/`, `/\b\B/`, `/$a/`, `/abc/`, `/[a-z]+/`, `/(/`, `/[a-z]\x95/`, `//`, `/a{2,1}/`, `/\d+/`, `/(?=a)/`, `/a/ `, `/\//`, `/[/`, "/a\nb/", `/(?P<n>a)/`}
 	types := []string{"", "TYPE @t\n{\"k\": 1}\n", "TYPE @t\n{\"k\": 1}\nTYPE @u\n{\"m\": \"s\"}\n", "TYPE @t regex\n/ab+/\n", "TYPE @t any\n", "TYPE @t empty\n",
 		"TYPE @t\n1\n", "TYPE @t\n{\"k\": @u}\nTYPE @u\n{\"l\": @t // {optional: true}\n}\n", "TYPE @t\n[1]\n", "TYPE @t\n\"s\" // {enum: @e}\nENUM @e\n[\"s\", \"t\"]\n",
 		"TYPE @t\n{\"k\": 1}\nTYPE @u\n{\"m\": \"s\"}\nTYPE @base\n{\n  \"x\": @t|@u,\n  \"y\": @t  |  @u,\n  \"z\": @u |@t\n}\nTYPE @d\n{ // {allOf: \"@base\"}\n  \"own\": 1\n}\n",
 		"TYPE @t\n{\"k\": 1}\nTYPE @u\n[1]\nTYPE @base\n{\n  \"x\": @t| @u // {optional: true}\n}\n",
 		"TYPE [@t]\n1\n", "TYPE [@t]\n1\nTYPE [@u]\n2\n", "TYPE [@t] regex\n/a/\nTYPE [@u] any\n",
+		// a regular expression whose first example can be generated and whose later ones cannot, used by one, two and three schemas
+		"TYPE @t regex\n/(xx|[^\\x{0}-\\x{10FFFF}]q)/\n", "TYPE @t regex\n/(xx|[^\\x{0}-\\x{10FFFF}]q)/\nTYPE @u\n{\"k\": @t}\nTYPE @v\n{\"k\": @t}\n",
+		"TYPE @r regex\n/(a|b|[^\\x{0}-\\x{10FFFF}])/\nTYPE @t\n{\"k\": @r}\nTYPE @u\n{\"k\": @r, \"l\": @r}\nTYPE @v\n[@r, @r]\n",
 		"ENUM @e\n[\"x\", \"y\"]\n", "ENUM @e\n[]\n", "ENUM @e\n[ # nothing\n]\n", "ENUM @e\n[1, 2 // two\n]\n", "TYPE @t\n{\"k\": 1}\nENUM @e\n[\"x\"]\nTYPE @u\n{\"p\": @t}\n"}
 	pick := func(ss []string) string { return ss[r.Intn(len(ss))] }
 	sch := func() string {
